@@ -33,6 +33,12 @@
 (*                         unplaced bin is fetched a second time when it is pooled with a small one  *)
 (* Variant = "impl_<deviation>" applies exactly one of them to the design (each is a negative        *)
 (* control on its own).                                                                             *)
+(* Variant = "mut_<deviation>": deviations that were never in the code but are one token away from it *)
+(* (seeded changes); kept as negative controls so that the invariants are not vacuous on them:       *)
+(*      last_task_count       : run_tagging_tasks decides "job wrote nothing" from its LAST task only *)
+(*                              (`total_molecules =` instead of `+=`) and deletes a non-empty file    *)
+(*      stats_ignore_unmapped : get_contigs_with_reads only reports contigs with MAPPED reads, so a   *)
+(*                              contig whose only records are placed unmapped reads is not planned    *)
 EXTENDS Integers, Sequences, FiniteSets, TLC, Json, TagRecords
 
 CONSTANTS MaxContigs,   \* layouts of 1..MaxContigs contigs
@@ -47,6 +53,8 @@ Deviations == CASE Variant = "design" -> {}
                 [] Variant = "impl_big_after_smalls" -> {"big_after_smalls"}
                 [] Variant = "impl_lone_small" -> {"lone_small"}
                 [] Variant = "impl_star_in_loop" -> {"star_in_loop"}
+                [] Variant = "mut_last_task_count" -> {"last_task_count"}
+                [] Variant = "mut_stats_ignore_unmapped" -> {"stats_ignore_unmapped"}
 Dev(d) == d \in Deviations
 
 Star == 0
@@ -73,7 +81,7 @@ PlanOf(stats, star) ==
        \o (IF Len(smalls) > 0 THEN << [k \in 1 .. Len(smalls) |-> smalls[k].cid] >> ELSE <<>>)
 
 ---------------------------------------------------------------------------------------------------
-VARIABLES layout,   \* <<[big, n], ...>> header order
+VARIABLES layout,   \* <<[big, n, um], ...>> header order; um: the n records are unmapped reads placed on the contig
           nstar,    \* number of unplaced records
           mode,     \* "single" | "multi"
           noRejects,\* --no_rejects: invalid fragments are not written
@@ -94,11 +102,13 @@ Input == Flat([c \in 1 .. NContigs |-> Recs(c)]) \o Recs(Star)
 (* what `samtools idxstats` + get_contigs_with_reads(.., with_length=True) yields: contigs with at   *)
 (* least one record in header order, then the `*` line (length 0) when there are unplaced records   *)
 WithReads == SelectSeq([c \in 1 .. NContigs |-> c], LAMBDA c : layout[c].n > 0)
-Stats == [k \in 1 .. Len(WithReads) |-> [cid |-> WithReads[k], small |-> ~layout[WithReads[k]].big]]
+Reported  == SelectSeq(WithReads, LAMBDA c : ~(Dev("stats_ignore_unmapped") /\ layout[c].um))
+Stats == [k \in 1 .. Len(Reported) |-> [cid |-> Reported[k], small |-> ~layout[Reported[k]].big]]
          \o (IF nstar > 0 THEN << [cid |-> Star, small |-> TRUE] >> ELSE <<>>)
 Need == { WithReads[k] : k \in DOMAIN WithReads } \cup (IF nstar > 0 THEN {Star} ELSE {})
 
-Layouts == UNION { [1 .. L -> [big : BOOLEAN, n : 0 .. MaxN]] : L \in 1 .. MaxContigs }
+ContigKinds == { r \in [big : BOOLEAN, n : 0 .. MaxN, um : BOOLEAN] : r.um => r.n > 0 }
+Layouts == UNION { [1 .. L -> ContigKinds] : L \in 1 .. MaxContigs }
 
 Init == /\ layout \in Layouts
         /\ nstar \in 0 .. MaxStar
@@ -146,9 +156,10 @@ PlanFlush ==
 
 ---------------------------------------------------------------------------------------------------
 (* execution *)
-(* which records belong to invalid fragments is input data; the model fixes it: unplaced records and every second *)
-(* placed record of a contig are invalid.  With --no_rejects the iterator does not yield them.                   *)
-Valid(r) == r[1] # Star /\ r[2] % 2 = 1
+(* which records belong to invalid fragments is input data; the model fixes it: unplaced records, placed unmapped *)
+(* reads and every second placed record are invalid - on even contigs starting with the first record, so that a  *)
+(* contig can hold nothing but invalid fragments.  With --no_rejects the iterator does not yield them.           *)
+Valid(r) == r[1] # Star /\ ~layout[r[1]].um /\ (r[1] + r[2]) % 2 = 0
 Written(q) == IF noRejects THEN SelectSeq(q, Valid) ELSE q
 JobOutput(job) == Flat([t \in DOMAIN job |-> Written(Recs(job[t]))])
 Expected == Written(Input)
@@ -158,11 +169,14 @@ RecLe(a, b) == LET ka == IF a[1] = Star THEN NContigs + 1 ELSE a[1]
                IN ka < kb \/ (ka = kb /\ a[2] <= b[2])
 Sorted(q) == \A k \in 1 .. (Len(q) - 1) : RecLe(q[k], q[k + 1])
 
+(* run_tagging_tasks keeps its file iff the molecule counts of its tasks add up to > 0 *)
+Kept(job) == IF Dev("last_task_count") THEN Len(Written(Recs(job[Len(job)]))) > 0 ELSE Len(JobOutput(job)) > 0
+
 RunJob(j) ==
     /\ pc = "run" /\ j \in pending
     /\ mode = "single" => j = MinOf(pending)          \* one process: `*` first, then everything
     /\ LET o == JobOutput(jobs[j]) IN
-       /\ mode = "multi" => Len(o) > 0
+       /\ mode = "multi" => Kept(jobs[j])
        /\ IF mode = "single"
           THEN out' = out \o o /\ UNCHANGED parts     \* one unsorted file
           ELSE parts' = [x \in DOMAIN parts \cup {j} |-> IF x = j THEN SortSeq(o, RecLe) ELSE parts[x]] /\ UNCHANGED out
@@ -171,7 +185,7 @@ RunJob(j) ==
 
 DropEmptyJob(j) ==
     /\ pc = "run" /\ j \in pending /\ mode = "multi"
-    /\ Len(JobOutput(jobs[j])) = 0
+    /\ ~Kept(jobs[j])
     /\ pending' = pending \ {j}
     /\ UNCHANGED <<layout, nstar, mode, noRejects, pc, i, current, jobs, parts, out, indexed>>
 
@@ -210,7 +224,7 @@ Inv_C05_Sorted   == pc = "done" => Sorted(out) /\ indexed
 (* the stepwise plan of the design equals the closed form *)
 Inv_PlanIsDesignPlan == (Variant = "design" /\ mode = "multi" /\ pc # "plan") => jobs = PlanOf(Stats, Star)
 (* progress bookkeeping of the D-level: a job file is kept iff it is non-empty *)
-Inv_PartsNonEmpty == \A j \in DOMAIN parts : Len(parts[j]) > 0
+Inv_PartsNonEmpty == Deviations = {} => \A j \in DOMAIN parts : Len(parts[j]) > 0
 
 (* scenario generation (rule 13): every layout of the bounded model, printed from the initial state *)
 Emit == IF pc = "plan" /\ i = 0
